@@ -475,6 +475,7 @@ func defineInterfaces(ttype *Object, interfaces []*Interface) ([]*Interface, err
 	if len(interfaces) == 0 {
 		return ifaces, nil
 	}
+	implemented := map[string]bool{}
 	for _, iface := range interfaces {
 		err := invariantf(
 			iface != nil,
@@ -483,6 +484,14 @@ func defineInterfaces(ttype *Object, interfaces []*Interface) ([]*Interface, err
 		if err != nil {
 			return ifaces, err
 		}
+		err = invariantf(
+			!implemented[iface.Name()],
+			`%v can only implement %v once.`, ttype, iface,
+		)
+		if err != nil {
+			return ifaces, err
+		}
+		implemented[iface.Name()] = true
 		if iface.ResolveType != nil {
 			err = invariantf(
 				iface.ResolveType != nil,
@@ -877,6 +886,7 @@ func defineUnionTypes(objectType *Union, unionTypes []*Object) ([]*Object, error
 		return definedUnionTypes, err
 	}
 
+	included := map[string]bool{}
 	for _, ttype := range unionTypes {
 		if err := invariantf(
 			ttype != nil,
@@ -884,6 +894,13 @@ func defineUnionTypes(objectType *Union, unionTypes []*Object) ([]*Object, error
 		); err != nil {
 			return definedUnionTypes, err
 		}
+		if err := invariantf(
+			!included[ttype.Name()],
+			`%v can include %v type only once.`, objectType, ttype,
+		); err != nil {
+			return definedUnionTypes, err
+		}
+		included[ttype.Name()] = true
 		if objectType.ResolveType == nil {
 			if err := invariantf(
 				ttype.IsTypeOf != nil,
@@ -1010,6 +1027,12 @@ func (gt *Enum) defineEnumValues(valueMap EnumValueConfigMap) ([]*EnumValueDefin
 			return values, err
 		}
 		if err = assertValidName(valueName); err != nil {
+			return values, err
+		}
+		if err = invariantf(
+			valueName != "true" && valueName != "false" && valueName != "null",
+			`Name "%v" can not be used as an Enum value.`, valueName,
+		); err != nil {
 			return values, err
 		}
 		value := &EnumValueDefinition{
